@@ -32,6 +32,19 @@ MODELS = {
         "decl_tags": ["class", "tparam", "field", "func", "param", "var", "super", "varannot", "retannot",
                       "targs", "new"],
     },
+    "scala": {
+        "op": "trans.scala",
+        "doc_op": "trans.scala.doc",
+        "inv_op": "trans.scala.inventory",
+        "visit_op": "trans.scala.visit",
+        "state_op": "trans.scala.state",
+        "reset": True,      # `op` understands {"reset": true}: `_reset_state()` after the history
+        "is_op_text": "isInstanceOf",   # text of the operator piece of `is` / `!is` (check_C12 K5)
+        "state_attrs": ["ident", "is_unit", "is_lambda", "_cast_integers"],
+        "model": "lean/Heph/Model/TransScala.lean",
+        "decl_tags": ["class", "tparam", "field", "func", "param", "var", "super", "varannot", "retannot",
+                      "targs", "new"],
+    },
 }
 
 
